@@ -3,12 +3,42 @@
 PROP = {
     "id": "C17",
     "level": "proof",
-    "technique": "Lean 4 proof + correspondence",
-    "level_text": "under construction",
-    "level_note": "",
+    "technique": ("Lean 4 proof (loop invariants over a checked-memory model: sign-monotone comparers for binary/exponential search, "
+                  "index-range invariants for the interpolation loop, frame + permutation invariants for pvGroup / selection sort / "
+                  "radix recursion, a counting argument for the in-place cycle-leader partition) + state-level correspondence on the "
+                  "real HashSorter / RadixSorter under ASan+UBSan"),
+    "level_text": ("Kernel-checked theorems, no bound on the sequence length: for every array, every Bool-valued equivalence and every "
+                   "64-bit hash under which equal items of the array have equal codes, the model of HashSorter::Sort and SortPrehashed "
+                   "returns a permutation with non-decreasing codes and contiguous equal items (the parallel hash array permuted in "
+                   "step), RadixSorter<R> sorts for every radix size R >= 1 and every code width (including R wider than the code, the "
+                   "in-place cycle-leader partition fully proved, not assumed), and on every arranged array - including the empty one - "
+                   "Find, GetBounds (and IsSorted on every array, arranged or not) return exactly the linear-scan answer; pvMultShift(h,n) "
+                   "< n. Every array access of the model is checked and every theorem concludes `= some ...`, i.e. no access leaves the "
+                   "sequence, no size_t subtraction wraps, no MOMO_ASSERT fails, every loop terminates. The model is executable and is "
+                   "compared cell by cell with the real code on every run (exact arrangement after Sort through item ids, exact indices "
+                   "returned by Find/GetBounds, pvMultShift/pvGetStepCount at function level); thresholds and radix constants are "
+                   "re-extracted from the headers."),
+    "level_note": ("Trusted: Lean kernel, the three standard axioms, extractor, correspondence harness (g++, -fno-access-control, ASan/UBSan). "
+                   "Modelled, not verified: iterators as (view, offset) pairs, std::reverse_iterator arithmetic, std::iter_swap / std::swap as "
+                   "an exchange of two cells, std::min_element as 'first smallest', std::array bounds; sizes are unbounded naturals (index "
+                   "arithmetic such as i*2+2 or middleIndex + diff cannot wrap for count < 2^63, which object size limits guarantee); only "
+                   "pvMultShift is modelled with explicit 64-bit wrap-around. equalFunc must be an equivalence and hashFunc must respect it "
+                   "on the items present (hypotheses of the theorems; the harness functors satisfy them)."),
     "modules": ["Momo.Props.C17"],
     "theorems": [
-        "Momo.Sort.C17_stub",
+        "Momo.Sort.C17_multShift_lt",
+        "Momo.Sort.C17_multShift_le_exact",
+        "Momo.Sort.C17_sort_plain",
+        "Momo.Sort.C17_sort_prehashed",
+        "Momo.Sort.C17_radix_sorts",
+        "Momo.Sort.C17_partition_correct",
+        "Momo.Sort.C17_group_correct",
+        "Momo.Sort.C17_find_plain",
+        "Momo.Sort.C17_find_prehashed",
+        "Momo.Sort.C17_bounds_plain",
+        "Momo.Sort.C17_bounds_prehashed",
+        "Momo.Sort.C17_isSorted_plain",
+        "Momo.Sort.C17_isSorted_prehashed",
     ],
     "harnesses": [
         {"name": "c17_sort", "src": "c17_sort.cpp", "sanitize": "asan"},
@@ -17,7 +47,25 @@ PROP = {
         {"name": "c17_radix_c", "src": "c17_radix.cpp", "sanitize": "asan", "flags": ["-DC17_RGROUP=2"]},
         {"name": "c17_radix_d", "src": "c17_radix.cpp", "sanitize": "asan", "flags": ["-DC17_RGROUP=3"]},
     ],
-    "rule": "",
-    "runtime_only": [],
-    "not_modelled": [],
+    "rule": ("c17_sort / arith: pvMultShift on all pairs of ~360 boundary values (2^k +-2, small numbers, half-word masks) plus 40 000 "
+             "(thorough 400 000) boundary-biased random pairs, pvGetStepCount around every power of two up to 2^40. exh: every sequence of "
+             "length 0..7 (thorough 0..8) over a 3-letter alphabet x 9 fixed hash tables (constant 0 / mid / 2^64-1, two-valued, extreme "
+             "0 / 2^64-1, extreme with a middle value, injective spread over the 64-bit range, injective near 0, injective near 2^64-1) + 2 "
+             "(thorough 12) random tables, plain and prehashed, raw pointers and vector iterators alternating: IsSorted on the raw sequence; "
+             "Find+GetBounds for 6 query keys (3 alphabet keys, one absent key whose hash collides with a present one, one hashing below all, "
+             "one above all) on the raw sequence when it happens to be arranged and on the sorted one; Sort with the arrangement (ids) and the "
+             "hash array compared cell by cell. rand: 60 (thorough 260) LCG sequences of length 0..30 000 (thorough 120 000, one of 2^22+5 to "
+             "reach pvGetStepCount = 3) over 10 hash families (constant, 2/3/4/256-valued, multiplicative, identity, high-byte, 4-key "
+             "collisions, mid-range) optionally overlaid with a table holding 0 and 2^64-1, key ranges from 1 to 10n, 30 (60) queries each. "
+             "c17_radix_a..d: RadixSorter<1..16> x {uint8,uint16,uint32,uint64,const char*}: 12+ sizes around selectionSortMaxCount x 7 code "
+             "distributions (uniform, few distinct, all equal, extremes, shared high bits, boundary-biased, two clusters) as native arrays "
+             "(against std::sort) and as (code,id) records (ids against the model), plus generated sequences of 2 000..12 000 (thorough "
+             "20 000..120 000) codes. distinct_nontrivial counts distinct (table, mode, sequence) with >= 3 items and >= 2 distinct keys, "
+             "distinct random (family, n, K, seed), distinct (type, R, distribution, n, base)."),
+    "runtime_only": ["absence of out-of-bounds reads/writes and of undefined shifts in the real code is observed under ASan+UBSan on the "
+                     "generated inputs (the theorems prove it for the model only)"],
+    "not_modelled": ["signed integer element types of RadixSorterCodeGetter (sorted by their unsigned representation, not by value)",
+                     "64-bit wrap-around of index arithmetic for sequences of 2^63 or more cells",
+                     "exceptions thrown by hashFunc / equalFunc / iterSwapper",
+                     "the number of hashFunc / equalFunc calls (only results and arrangements are compared)"],
 }
